@@ -45,6 +45,7 @@ class Ctx:
         os.makedirs(OUT_DIR, exist_ok=True)
         self.scratch = tempfile.mkdtemp(prefix=f"{pid}_", dir=OUT_DIR)
         self.replay_dir = os.path.join(OUT_DIR, "replay", pid)
+        shutil.rmtree(self.replay_dir, ignore_errors=True)     # replay files of earlier runs are stale
         os.makedirs(self.replay_dir, exist_ok=True)
         self.violations = []       # unlisted violations
         self.known_hits = {}       # key -> count
